@@ -383,6 +383,7 @@ class Hand:
         self.yielded = []
         self.killed = False
         self.detached = False
+        self.inside = False
         self.calls_at_quit = None
 
     @property
@@ -695,9 +696,13 @@ class GSyncCompleter(Completer):
             return
         hand.n = len(items)
         with sim.lock:
+            # enter/exit of this call of get_completions; a thread that the harness itself detached (its
+            # coroutine was cancelled a second time while waiting for it) is not a run of the buffer any more
+            hand.inside = True
             sim.active["c"] += 1
-            live = sum(1 for h in sim.hands if h.job.started and not h.job.finished.is_set() and not h.quitting)
-            sim.max_active["c"] = max(sim.max_active["c"], live)
+            runs = [h for h in sim.hands if h.inside and not h.detached]
+            if len(runs) > 1 and sim.overlap is None:
+                sim.overlap = [(h.document().text, h.document().cursor_position) for h in runs]
         try:
             for k, (t, s) in enumerate(items):
                 hand.at_gate(k)
@@ -707,6 +712,7 @@ class GSyncCompleter(Completer):
             hand.at_gate(len(items))
         finally:
             with sim.lock:
+                hand.inside = False
                 sim.active["c"] -= 1
 
 
@@ -799,6 +805,7 @@ class Sim(Threads):
     def __init__(self, case):
         self.thr = bool(case.get("thr"))
         self.lock = threading.Lock()
+        self.overlap = None
         cfg = dict(DEFAULT_CFG, **case.get("cfg", {}))
         self.cfg = cfg
         self.spec = [tuple(x) for x in case["comp"]]
@@ -1509,17 +1516,22 @@ def check_state(sim, v, where):
             # threads inside the user's code; a completer thread whose consumer has quit (it finishes
             # its current item and returns) and jobs of cancelled coroutines do not count
             if kind == "c":
-                n = sum(1 for h in sim.hands
-                        if h.job.started and not h.job.finished.is_set() and not h.quitting)
+                runs = [h for h in sim.hands if h.inside and not h.detached]
+                if sim.overlap is not None or len(runs) > 1:
+                    docs = sim.overlap or [(h.document().text, h.document().cursor_position) for h in runs]
+                    bad("ThreadedCompleter | two completer runs at the same time",
+                        "calls of get_completions for %r are active at the same time" % (docs,))
+                n = 0
             else:
                 n = 1 if sim.live_job(kind) is not None else 0
                 n = max(n, sum(1 for j in sim.jobs
                                if j.kind == ("run_validation_thread" if kind == "v" else "run_get_suggestion_thread")
                                and not j.delivered and not getattr(j, "dead", False)))
-            if n > 1 or sim.max_active[kind] > 1 and kind == "c":
+            if n > 1:
                 bad("_only_one_at_a_time | two %ss active" % name, "more than one %s running" % name)
-        elif sim.active[kind] > 1 or len(sim.gates[kind].waiters) > 1:
-            bad("_only_one_at_a_time | two %ss active" % name, "more than one %s running" % name)
+        elif sim.active[kind] > 1 or sim.max_active[kind] > 1 or len(sim.gates[kind].waiters) > 1:
+            bad("_only_one_at_a_time | two %ss active" % name,
+                "more than one %s running (a call started before the previous one had ended)" % name)
     if sim.thr:
         for h in sim.hands:
             calls = h.pos + 1
@@ -1613,6 +1625,7 @@ COMPS = {
     "single_chg": [[1, False, "Z"]],                # no common part, exactly one match
     "noop_then": [[1, True, ""], [0, False, "k"]],
     "mixed": [[1, True, "xy"], [1, False, "Q"], [1, True, "xz"]],   # one completion rewrites the text before the cursor
+    "far": [[3, False, "Z"], [3, True, "k"], [5, False, ""]],       # -start_position reaches back beyond the text start
 }
 
 A_USER = ["ins_s:97", "delb_1", "cur_-1", "next_1_0", "prev_1_0", "cancel"]
@@ -1631,7 +1644,7 @@ def enum_configs(tier):
     for name, mode, dq, dt in (("ext2", 0, 5, 7), ("ext2", 3, 6, 8), ("noop1", 0, 5, 7), ("chg3", 1, 5, 7),
                                ("chg3", 2, 5, 7), ("single_chg", 3, 6, 8), ("one", 3, 6, 8),
                                ("dup3", 3, 6, 8), ("noop_then", 0, 5, 7), ("empty", 0, 5, 7),
-                               ("mixed", 3, 6, 8)):
+                               ("mixed", 3, 6, 8), ("far", 1, 5, 7)):
         out.append(({"cfg": dict(off), "comp": COMPS[name], "text": "ab", "cur": 2},
                     A_USER + ["startc_%d" % mode, "tab"] + A_SCHED_C, dq, dt))
     # complete while typing (tasks created by insert_text), two pending tasks compete
